@@ -20,7 +20,7 @@ CASE_TIMEOUT = 120
 TIERS = {"quick": {"n": 2000}, "thorough": {"n": 40000}}
 RULE = ("kind q: histories of add (with re-adds)/remove/pop/peek/len over 2..40 tasks and 1..12 priority levels, run on "
         "HeapPriorityQueue and SortedPriorityQueue with BarrelList._size_factor in {0,1,2,3,1520}; kind b: BarrelList "
-        "insert/pop/getitem (also b[-k])/len/list at indices around sub-list borders; kind big: 23 000..40 000 tasks added (rank patterns "
+        "insert/pop/getitem (also insert(-k), pop(), pop(-k), b[-k])/len/list at indices around sub-list borders; kind big: 23 000..40 000 tasks added (rank patterns "
         "descending / ascending / modular, optional re-adds and removals) to both classes at the REAL _size_factor=1520 and "
         "drained, judged by Spec.big_ok; churn histories (waves of growth and bursts of scattered removals / "
         "re-prioritisations leaving hundreds of tombstones around a handful of live tasks, then a drain); steady-state "
@@ -318,11 +318,25 @@ def _gen_b(rng, tier):
             ops.append(["ins", i, nxt % 4000])
             nxt += 1
             n += 1
-        elif r < ins_w + 0.12:
+        elif r < ins_w + 0.03:
+            k = rng.choice([1, n, n + 1, max(n // 2, 1), rng.randint(1, max(n, 1)), n + 3, 0])
+            ops.append(["insneg", k, nxt % 4000])         # b.insert(-k, x): clamps to the front
+            nxt += 1
+            n += 1
+        elif r < ins_w + 0.09:
             i = rng.choice([0, 0, max(n - 1, 0), rng.randint(0, max(n - 1, 0)), n, n + 2])
             ops.append(["pop", i])
             if i < n:
                 n -= 1
+        elif r < ins_w + 0.12:
+            if rng.random() < 0.5:
+                ops.append(["poplast"])                    # b.pop()
+                n -= n > 0
+            else:
+                k = rng.choice([1, 1, 2, n, n + 1, rng.randint(1, max(n, 1)), 0])
+                ops.append(["popneg", k])                  # b.pop(-k)
+                if (k == 0 and n > 0) or 1 <= k <= n:
+                    n -= 1
         elif r < ins_w + 0.17:
             ops.append(["get", rng.choice([0, max(n - 1, 0), rng.randint(0, max(n - 1, 0)), n, n + 1])])
         elif r < ins_w + 0.2:
@@ -504,6 +518,14 @@ def run_impl(case):
                     out.append(["none"])
                 elif op[0] == "pop":
                     out.append(["val", b.pop(op[1])])
+                elif op[0] == "insneg":
+                    r = b.insert(-op[1], op[2])
+                    assert r is None
+                    out.append(["none"])
+                elif op[0] == "poplast":
+                    out.append(["val", b.pop()])
+                elif op[0] == "popneg":
+                    out.append(["val", b.pop(-op[1])])
                 elif op[0] == "get":
                     out.append(["val", b[op[1]]])
                 elif op[0] == "getneg":
@@ -518,7 +540,7 @@ def run_impl(case):
                 maxsub = max(maxsub, len(b.lists))
             except AttributeError:
                 pass
-        nins = sum(1 for op in case["ops"] if op[0] == "ins")
+        nins = sum(1 for op in case["ops"] if op[0] in ("ins", "insneg"))
         return {"lim": _limit_steps(BarrelList, case["factor"], nins + 1), "obs": out, "maxsub": maxsub}
     finally:
         BarrelList._size_factor = old
@@ -558,6 +580,12 @@ def _bop(op):
         return "BGet %s" % cnat(op[1])
     if op[0] == "getneg":
         return "BGetNeg %s" % cnat(op[1])
+    if op[0] == "insneg":
+        return "BInsertNeg %s %s" % (cnat(op[1]), cnat(op[2]))
+    if op[0] == "poplast":
+        return "BPopLast"
+    if op[0] == "popneg":
+        return "BPopNeg %s" % cnat(op[1])
     return "BLen" if op[0] == "len" else "BList"
 
 
